@@ -1,5 +1,4 @@
 import PycModel.Proofs.ClimbConcrete
-import PycModel.Proofs.ClimbSim
 /-!
 # An identifier is an operand (`OperandSpec` is satisfiable)
 
@@ -9,9 +8,6 @@ anything that is not a postfix operator.
 -/
 namespace PycModel.OperandId
 open PycModel PycModel.View PycModel.ClimbConcrete
-
-def OpId (n : Nat) (a : Val) (ta : List Tk) : Prop :=
-  ∃ x, ta = [("ID", x)] ∧ a = mk .ID (some ⟨"", n, some (n + 1)⟩) [.str x]
 
 def postfixStarters : List String := ["LPAREN", "LBRACKET", "PERIOD", "ARROW", "PLUSPLUS", "MINUSMINUS"]
 
@@ -24,15 +20,16 @@ theorem pure_apply {α} (a : α) (s : PState) : (pure a : P α) s = .ok a s := r
 
 /-- `peekType` on any seen token list -/
 theorem peekType_spec (s : PState) (toks : List Tk) (h : SeesT s toks) :
-    ∃ s', peekType s = .ok (toks.head?.map (·.1)) s' ∧ SeesT s' toks ∧ s'.idx = s.idx := by
+    ∃ s', peekType s = .ok (toks.head?.map (·.1)) s' ∧ SeesT s' toks ∧ s'.idx = s.idx ∧
+      BufExt s s' ∧ s.buf.size ≤ s'.buf.size := by
   cases toks with
   | nil =>
-    obtain ⟨s', hp, hs', _, hi⟩ := peek_end s h
-    exact ⟨s', by simp [peekType, bind_apply, hp, pure_apply], hs', hi⟩
+    obtain ⟨s', hp, hs', _, hi, hb⟩ := peek_end s h
+    exact ⟨s', by simp [peekType, bind_apply, hp, pure_apply], hs', hi, hb⟩
   | cons t r =>
     obtain ⟨k, v⟩ := t
-    obtain ⟨s', hp, hs', _, hi⟩ := peek_spec s k v r h
-    exact ⟨s', by simp [peekType, bind_apply, hp, pure_apply], hs', hi⟩
+    obtain ⟨s', hp, hs', _, hi, hb⟩ := peek_spec s k v r h
+    exact ⟨s', by simp [peekType, bind_apply, hp, pure_apply], hs', hi, hb⟩
 
 /-- `accept kind` when the next token (if any) is of another kind -/
 theorem accept_other (s : PState) (toks : List Tk) (kind : String) (h : SeesT s toks)
@@ -40,18 +37,27 @@ theorem accept_other (s : PState) (toks : List Tk) (kind : String) (h : SeesT s 
     ∃ s', accept kind s = .ok none s' ∧ SeesT s' toks ∧ s'.idx = s.idx := by
   cases toks with
   | nil =>
-    obtain ⟨s', hp, hs', _, hi⟩ := peek_end s h
+    obtain ⟨s', hp, hs', _, hi, _⟩ := peek_end s h
     exact ⟨s', by simp [accept, bind_apply, hp, pure_apply], hs', hi⟩
   | cons t r =>
     obtain ⟨k, v⟩ := t
-    obtain ⟨s', hp, hs', _, hi⟩ := peek_spec s k v r h
+    obtain ⟨s', hp, hs', _, hi, _⟩ := peek_spec s k v r h
     have := hk k v r rfl
     exact ⟨s', by simp [accept, bind_apply, hp, pure_apply, this], hs', hi⟩
+
+/-- `accept k` when the next token is of kind `k`: consumes it (and it stays in the buffer) -/
+theorem accept_same (s : PState) (k v : String) (toks : List Tk) (h : SeesT s ((k, v) :: toks)) :
+    ∃ s', accept k s = .ok (some ⟨k, v, s.idx⟩) s' ∧ SeesT s' toks ∧ s'.idx = s.idx + 1 ∧
+      s'.buf[s.idx]? = some (some ⟨k, v, s.idx⟩) := by
+  obtain ⟨s1, hp, hs1, _, hi1, _, _⟩ := peek_spec s k v toks h
+  obtain ⟨s2, ha, hs2, _, hi2, _, _, hb⟩ := advance_spec s1 k v toks hs1
+  refine ⟨s2, ?_, hs2, by omega, by rw [← hi1]; exact hb⟩
+  simp [accept, bind_apply, hp, ha, pure_apply, hi1]
 
 /-- `expect k` when the next token is of kind `k` -/
 theorem expect_same (s : PState) (k v : String) (toks : List Tk) (h : SeesT s ((k, v) :: toks)) :
     ∃ s', expect k s = .ok ⟨k, v, s.idx⟩ s' ∧ SeesT s' toks ∧ s'.idx = s.idx + 1 := by
-  obtain ⟨s', hp, hs', _, hi⟩ := advance_spec s k v toks h
+  obtain ⟨s', hp, hs', _, hi, _⟩ := advance_spec s k v toks h
   exact ⟨s', by simp [expect, bind_apply, hp, pure_apply], hs', hi⟩
 
 
@@ -72,8 +78,8 @@ theorem postfixLoop_stop (F : Nat) (s : PState) (e : Val) (rest : List Tk) (h : 
     exact hf k v r hr (hk ▸ hkind)
   obtain ⟨s1, h1, hs1, hi1⟩ := accept_other s rest "LBRACKET" h (hne _ (by decide))
   obtain ⟨s2, h2, hs2, hi2⟩ := accept_other s1 rest "LPAREN" hs1 (hne _ (by decide))
-  obtain ⟨s3, h3, hs3, hi3⟩ := peekType_spec s2 rest hs2
-  obtain ⟨s4, h4, hs4, hi4⟩ := peekType_spec s3 rest hs3
+  obtain ⟨s3, h3, hs3, hi3, _⟩ := peekType_spec s2 rest hs2
+  obtain ⟨s4, h4, hs4, hi4, _⟩ := peekType_spec s3 rest hs3
   have hset1 : inSet (rest.head?.map (·.1)) ["PERIOD", "ARROW"] = false := by
     cases rest with
     | nil => rfl
@@ -98,7 +104,7 @@ theorem postfixLoop_stop (F : Nat) (s : PState) (e : Val) (rest : List Tk) (h : 
 theorem primary_id (F : Nat) (s : PState) (x : String) (rest : List Tk) (h : SeesT s (("ID", x) :: rest)) :
     ∃ s', run (F + 1) .primaryExpression s = .ok (mk .ID (some ⟨"", s.idx, some (s.idx + 1)⟩) [.str x]) s' ∧
       SeesT s' rest ∧ s'.idx = s.idx + 1 := by
-  obtain ⟨s1, h1, hs1, hi1⟩ := peekType_spec s _ h
+  obtain ⟨s1, h1, hs1, hi1, _⟩ := peekType_spec s _ h
   obtain ⟨s2, h2, hs2, hi2⟩ := expect_same s1 "ID" x rest hs1
   refine ⟨s2, ?_, hs2, by omega⟩
   show pPrimaryExpression (run F) s = _
@@ -127,7 +133,7 @@ theorem unary_id (F : Nat) (s : PState) (x : String) (rest : List Tk) (h : SeesT
     (hf : FollowOp rest) :
     ∃ s', run (F + 3) .unaryExpression s = .ok (mk .ID (some ⟨"", s.idx, some (s.idx + 1)⟩) [.str x]) s' ∧
       SeesT s' rest ∧ s'.idx = s.idx + 1 := by
-  obtain ⟨s1, h1, hs1, hi1⟩ := peekType_spec s _ h
+  obtain ⟨s1, h1, hs1, hi1, _⟩ := peekType_spec s _ h
   obtain ⟨s2, h2, hs2, hi2⟩ := postfix_id F s1 x rest hs1 hf
   refine ⟨s2, ?_, hs2, by omega⟩
   rw [hi1] at h2
@@ -144,124 +150,5 @@ theorem cast_id (F : Nat) (s : PState) (x : String) (rest : List Tk) (h : SeesT 
   rw [hi1] at h2
   show pCastExpression (run (F + 3)) s = _
   simp [pCastExpression, bind_apply, h1, h2]
-
-/-- **Identifiers are operands**: `OperandSpec` holds for them with fuel 4 -/
-theorem operand_id : OperandSpec OpId FollowOp 4 := by
-  intro fuel s a ta rest hfuel ⟨x, hta, ha⟩ hfo hs
-  subst hta ha
-  obtain ⟨F, rfl⟩ : ∃ F, fuel = F + 4 := ⟨fuel - 4, by omega⟩
-  obtain ⟨s', hr, hs', hi⟩ := cast_id F s x rest hs hfo
-  exact ⟨s', hr, hs', by simpa using hi⟩
-
-
-/-! ## end to end: expressions of identifiers and binary operators -/
-open PycModel.Climb PycModel.ClimbSim
-
-/-- expression trees whose operands are identifiers -/
-inductive IT where
-  | leaf (x : String)
-  | node (kind val : String) (l r : IT)
-
-def IT.ntoks : IT → Nat
-  | .leaf _ => 1
-  | .node _ _ l r => l.ntoks + 1 + r.ntoks
-
-def idNode (n : Nat) (x : String) : Val := mk .ID (some ⟨"", n, some (n + 1)⟩) [.str x]
-
-/-- the tree with every identifier replaced by its `ID` node at its position in the token stream -/
-def IT.toBT (n : Nat) : IT → BT
-  | .leaf x => .leaf (idNode n x)
-  | .node k v l r => .node k v (l.toBT n) (r.toBT (n + l.ntoks + 1))
-
-def IT.flat : IT → List Tk
-  | .leaf x => [("ID", x)]
-  | .node k v l r => l.flat ++ [(k, v)] ++ r.flat
-
-theorem binop_not_postfix (k : String) (p : Nat) (h : binPrec k = some p) : k ∉ postfixStarters := by
-  intro hk
-  simp only [postfixStarters, List.mem_cons, List.mem_nil_iff, or_false] at hk
-  rcases hk with rfl | rfl | rfl | rfl | rfl | rfl <;> simp [binPrec, binaryPrecedence] at h
-
-theorem nodes_toBT : ∀ (e : IT) (n : Nat), Nodes (e.toBT n)
-  | .leaf _, _ => rfl
-  | .node _ _ l r, n => ⟨nodes_toBT l n, nodes_toBT r _⟩
-
-theorem denotes_tks : ∀ (n : Nat) (l : List Tk), Denotes OpId FollowOp n (l.map fun t => PT.tk t.1 t.2) l
-  | n, [] => .nil n
-  | n, (k, v) :: l => .tk n k v _ _ (denotes_tks (n + 1) l)
-
-theorem denotes_tks_inv : ∀ (n : Nat) (l toks : List Tk),
-    Denotes OpId FollowOp n (l.map fun t => PT.tk t.1 t.2) toks → toks = l
-  | n, [], toks, h => by cases h; rfl
-  | n, (k, v) :: l, toks, h => by
-    cases h with
-    | tk _ _ _ _ toks' h' => rw [denotes_tks_inv (n + 1) l toks' h']
-
-theorem denotes_tree : ∀ (e : IT) (m n : Nat) (ts : List PT) (toks : List Tk),
-    WF binPrec m (e.toBT n) → FollowOp toks → Denotes OpId FollowOp (n + e.ntoks) ts toks →
-    Denotes OpId FollowOp n ((e.toBT n).toks ++ ts) (e.flat ++ toks)
-  | .leaf x, m, n, ts, toks, _, hf, hd => by
-    simp only [IT.toBT, BT.toks, IT.flat, List.cons_append, List.nil_append]
-    exact .atom n _ [("ID", x)] ts toks ⟨x, rfl, rfl⟩ hf (by simpa [IT.ntoks] using hd)
-  | .node k v l r, m, n, ts, toks, hwf, hf, hd => by
-    cases hwf with
-    | node _ p _ _ _ _ hp _ hl hr =>
-      have h1 := denotes_tree r (p + 1) (n + l.ntoks + 1) ts toks hr hf
-        (by simpa [IT.ntoks, Nat.add_assoc, Nat.add_comm, Nat.add_left_comm] using hd)
-      have h2 : Denotes OpId FollowOp (n + l.ntoks) (PT.tk k v :: ((r.toBT (n + l.ntoks + 1)).toks ++ ts))
-          ((k, v) :: (r.flat ++ toks)) := .tk _ k v _ _ h1
-      have hfo : FollowOp ((k, v) :: (r.flat ++ toks)) := by
-        intro k' v' r' heq
-        simp only [List.cons.injEq, Prod.mk.injEq] at heq
-        rw [← heq.1.1]
-        exact binop_not_postfix k p hp
-      have h3 := denotes_tree l p n _ _ hl hfo h2
-      simpa [IT.toBT, BT.toks, IT.flat, List.append_assoc] using h3
-
-
-/-- **End to end, no hypothesis about operands.** For every expression tree `e` of identifiers and
-binary operators that the C grammar derives at level `m`, in every parser state that sees the
-tokens of `e` followed by a token `stop` that is neither a binary nor a postfix operator (`;`, `)`,
-`,`, `?`, `]`, `=` ...), the model's `_parse_binary_expression(m)` returns - for every
-sufficient fuel - the `BinaryOp` / `ID` tree nested exactly like `e`, every `ID` at its own token,
-every `BinaryOp` at its leftmost identifier, and stops in front of `stop`. -/
-theorem identifier_expressions_parse (e : IT) (m : Nat) (s : PState)
-    (hwf : WF binPrec m (e.toBT s.idx)) (stop : Tk) (hstop1 : binPrec stop.1 = none)
-    (hstop2 : stop.1 ∉ postfixStarters) (rest : List Tk) (hs : SeesT s (e.flat ++ stop :: rest)) :
-    ∃ F0, ∀ F, F0 ≤ F → ∃ s', run F (.binaryExpression m none) s = .ok (toVal (e.toBT s.idx)) s' ∧
-      SeesT s' (stop :: rest) := by
-  let k : List PT := (stop :: rest).map fun t => PT.tk t.1 t.2
-  have hk : StopAt binPrec m k := by
-    refine ⟨?_, ?_⟩
-    · intro kk v r p heq hp
-      simp only [k, List.map_cons, List.cons.injEq, PT.tk.injEq] at heq
-      rw [← heq.1.1, hstop1] at hp; cases hp
-    · intro a r heq; simp [k] at heq
-  have hkt : ∀ x ∈ k, PTok' x := by
-    intro x hx
-    simp only [k, List.mem_map] at hx
-    obtain ⟨t, _, rfl⟩ := hx
-    trivial
-  have hfo : FollowOp (stop :: rest) := by
-    intro k' v' r' heq
-    simp only [List.cons.injEq] at heq
-    rw [heq.1] at hstop2; exact hstop2
-  have hd := denotes_tree e m s.idx k (stop :: rest) hwf hfo (denotes_tks _ _)
-  obtain ⟨F0, hF0⟩ := binary_expression_parses_grammar_tree (iface OpId FollowOp 4 operand_id)
-    (e.toBT s.idx) m hwf (nodes_toBT e _) k hk hkt s ⟨_, hs, hd⟩
-  refine ⟨F0, fun F hF => ?_⟩
-  obtain ⟨s', hr, toks, hs', hd'⟩ := hF0 F hF
-  have := denotes_tks_inv _ _ _ hd'
-  subst this
-  exact ⟨s', hr, hs'⟩
-
-
-/-- the initial parser state sees the whole token list (brace-free: braces move the scope stack at lex time) -/
-theorem seesT_init (toks : List Tk) (h : ∀ t ∈ toks, t.1 ≠ "LBRACE" ∧ t.1 ≠ "RBRACE") :
-    SeesT (initState (toks.map (fun t => SEv.tok t.1 t.2) ++ [.eof])) toks := by
-  refine ⟨⟨[], toks, false, by simp [initState], rfl, by simp, by simp, ?_, by intro _; rfl⟩, by simp [initState], ?_⟩
-  · intro t ht
-    exact ⟨(h t ht).1, (h t ht).2, fun _ => by simp [initState, isTypeInScopes, scopeLookup]⟩
-  · intro j t hj; simp [initState] at hj
 
 end PycModel.OperandId
